@@ -152,7 +152,10 @@ where
         o.count("prover==verifier event sequences", 1);
     }
     if chals.len() != n_p2 + 5 + k {
-        o.violate("challenge-count", format!("main transcript squeezed {} challenges, protocol has {} (+{} randomized-phase) + {} rounds", chals.len(), 5, n_p2, k), ctxj(json!({})));
+        // roles are assigned by position; with another number of squeezes they cannot be assigned.
+        // (prover/verifier disagreement was already reported above; an extra squeeze on both sides is
+        // not forbidden by the property)
+        o.inconclusive = Some(format!("main transcript squeezed {} challenges, expected {} randomized-phase + 5 + {} rounds: roles cannot be assigned", chals.len(), n_p2, k));
         return o;
     }
     match (po.probe, base.probe) {
